@@ -127,8 +127,23 @@ func c20Guard(where string, timeout time.Duration, f func()) (class, msg string)
 	}
 }
 
-func (*c20) Execute(ci any) any {
+var c20Times = map[string]float64{}
+
+func (p *c20) Execute(ci any) any {
 	c := ci.(c20Case)
+	t0 := time.Now()
+	defer func() {
+		k := c.Kind
+		if c.Explore != nil {
+			k += "/" + c.Explore.Target
+		}
+		c20Times[k] += time.Since(t0).Seconds()
+		hx.Extra["seconds_per_stream"] = c20Times
+	}()
+	return p.execute(c)
+}
+
+func (*c20) execute(c c20Case) any {
 	switch c.Kind {
 	case "storage":
 		return c20ExecStorage(c.Storage)
